@@ -149,6 +149,8 @@ def run_job(job):
         bad = res["mon_fail"] or res["corr_fail"]
         return {"violated": bool(res["mon_fail"]), "message": (bad[0]["msg"] if bad else "no monitor fired; model accepts the trace")
                 + ("" if res["mon_fail"] or not res["corr_fail"] else " [correspondence still diverges]")}
+    if kind == "shrink":
+        return {"failure": shrink(prop, job["failure"])}
     if kind == "corpus":
         items = [(it["scenario"], None, 0, it["choices"]) for it in job["items"]]
         return _run_batch(prop, items)
